@@ -38,12 +38,12 @@ PARTIAL = {
                                      "result is scalar_inherits_approx (|d(g.scene) - d(scene)| <= sum of the two "
                                      "C01/C09 bounds) and pen_depth_inherits, conditional on the C01/C07/C09 theorems of "
                                      "the other verticals; checked metamorphically on the real code here",
-    "closed_form_distance_functions": "direct equivariance is proved for the kernels modelled in D3.Model.PoseAlg "
-                                      "(_point_to_line, point_to_line_segment, _line_to_line, "
-                                      "_line_segment_to_line_segment, _point_to_plane, point_to_box, local-frame support, "
-                                      "Nesterov relative pose); the other functions of distance3d.distance inherit the "
-                                      "scalar relation from their C11 theorem via scalar_inherits and are checked "
-                                      "metamorphically",
+    "closed_form_distance_functions (closed where C10/C11 prove optimality)":
+        "direct equivariance is proved for the kernels modelled in D3.Model.PoseAlg; D3.C12Link adds _inherits (rigid "
+        "and scale invariance of the distance) for point_to_{triangle, rectangle, box, disk, cylinder}, line_to_plane, "
+        "segment_to_plane, plane_to_{plane, triangle, rectangle, box, ellipsoid, cylinder}, segment_to_segment_swap, "
+        "line_to_line_swap_dist; point_to_circle and line_to_segment carry explicit band provisos; functions without an "
+        "optimality theorem (polygon pairs, iterative ones) are checked metamorphically only",
     "point_outputs_nonunique": "returned points are only related by g where the optimum is unique "
                                "(closest_pair_equivariant); elsewhere only the scalar outputs are compared",
     "seg_to_seg_scale": "scale homogeneity of _line_segment_to_line_segment holds under the explicit branch-stability "
